@@ -11,7 +11,8 @@ pp.create_mdg "cartesian" / "tensor_grid"), the whole md-grid is exported (per s
 tags, geometry; per interface: the (mortar cell, primary face) and (mortar cell, secondary cell) entries of
 primary_to_mortar_int / secondary_to_mortar_int, the side of every mortar cell) and TLC compares it with the expected
 structure and evaluates the clauses exactly (tolerance 0).
-Simplex family (validation): a catalogue of integer-vertex networks (non axis-aligned, X / T / L, touching the boundary)
+Tensor family: a seeded sample of the lattice networks on non-uniform tensor grids (pp.meshing.tensor_grid), validity
+clauses only.  Simplex family (validation): a catalogue of integer-vertex networks (non axis-aligned, X / T / L, touching the boundary)
 meshed by gmsh through pp.create_mdg("simplex", ..) at several mesh sizes; only the validity clauses, float-judged.
 
 Python drives porepy, converts doubles to fixed-point integers (units of 2^-26; lattice values are multiples of 1/2 and
@@ -25,6 +26,7 @@ import numpy as np
 from .. import tlc
 
 LEVEL = "model_checking"
+MATCHERS = {}
 CLAUSES = ["EachCellCoupledBothSides", "FacesCoincideWithCell", "OppositeNormalsC", "FractureTagsExact", "HostVolume",
            "CellsOnFracture", "MortarSidesMatch"]
 SELF = ["InFamily"]
@@ -133,6 +135,17 @@ def lattice_input(rec, path="cart_grid"):
                 lat=dict(dim=rec["dim"], box=list(rec["box"]), fracs=fr), path=path, args=dict(none=0))
 
 
+AXMAP = [0, 1, 3, 4]   # lattice index -> node coordinate of the non-uniform tensor grids
+
+
+def tensor_input(rec):
+    """the lattice network rec on a NON-UNIFORM tensor grid (integer node coordinates AXMAP): judged by the validity
+    clauses only (family 'tensor')"""
+    mp = lambda p: [AXMAP[p[0]], AXMAP[p[1]], AXMAP[p[2]]]  # noqa: E731
+    return dict(family="tensor", dim=rec["dim"], box=[AXMAP[b] for b in rec["box"]], lbox=list(rec["box"]),
+                fracs=[[mp(v) for v in corners(f[0], f[1])] for f in rec["fracs"]], path="tensor_grid", args=dict(none=0))
+
+
 def _frac_arrays(inp):
     d = inp["dim"]
     return [np.array(v, dtype=float).T[:d, :] for v in inp["fracs"]]
@@ -155,6 +168,9 @@ def mesh(inp):
     path, d = inp["path"], inp["dim"]
     if path == "cart_grid":
         return pp.meshing.cart_grid(_frac_arrays(inp), np.array(inp["box"][:d]))
+    if path == "tensor_grid":
+        ax = [np.array(AXMAP[:n + 1], dtype=float) for n in inp["lbox"][:d]]
+        return pp.meshing.tensor_grid(_frac_arrays(inp), *ax)
     if path == "create_mdg_cartesian":
         return pp.create_mdg("cartesian", dict(cell_size=1.0), _network(inp))
     if path == "create_mdg_tensor":
@@ -281,21 +297,23 @@ def summary(o):
 
 
 def boxes(ctx):
-    """(configurations enumerated and executed exhaustively, configurations sampled by TLC's simulation mode, #traces)"""
+    """(configurations enumerated and executed exhaustively, thinned configurations): <<dim, box, max #fractures,
+    ordered sequences?, thinning of the 2nd, of the 3rd fracture>>"""
     if ctx.quick:
-        return [(2, (3, 3, 0), 2, True), (2, (3, 2, 0), 3, False), (3, (2, 2, 2), 2, False)], [], 0
-    return ([(2, (4, 4, 0), 2, True), (2, (3, 3, 0), 3, True), (3, (2, 2, 2), 3, False), (3, (3, 2, 2), 2, False)],
-            [(2, (4, 4, 0), 3, True), (2, (4, 3, 0), 3, True), (3, (3, 3, 3), 3, True), (3, (3, 3, 2), 3, True)], 1200)
+        return [(2, (3, 3, 0), 2, True, 1, 1), (2, (3, 2, 0), 3, False, 1, 1), (3, (2, 2, 2), 2, False, 1, 1)], []
+    return ([(2, (4, 4, 0), 2, True, 1, 1), (2, (3, 3, 0), 3, False, 1, 1), (2, (3, 2, 0), 3, True, 1, 1),
+             (3, (2, 2, 2), 3, False, 1, 1), (3, (3, 2, 2), 2, False, 1, 1)],
+            [(2, (4, 4, 0), 3, True, 1, 100), (2, (4, 3, 0), 3, True, 1, 40), (3, (3, 3, 3), 3, True, 80, 200),
+             (3, (3, 3, 2), 3, True, 30, 100)])
 
 
 def netkey(r):
     return (r["dim"], tuple(r["box"]), tuple(tuple(map(tuple, f)) for f in r["fracs"]))
 
 
-def enumerate_networks(ctx, cfgs, tag, traces=0):
-    kw = dict(simulate=f"num={traces}", depth=4, workers=1) if traces else dict(workers=8)
-    res = ctx.tlc(*tlc.gen(ctx.work / tag, "MC_FracMeshEnum", "FracMeshEnum", dict(Boxes=set(cfgs)),
-                           invariants=["Laws", "Emit"]), allow_violation=False, timeout=1800, **kw)
+def enumerate_networks(ctx, cfgs, tag):
+    res = ctx.tlc(*tlc.gen(ctx.work / tag, "MC_FracMeshEnum", "FracMeshEnum", dict(Boxes=set(cfgs), Salt=ctx.seed % 1000),
+                           invariants=["Laws", "Emit"]), allow_violation=False, timeout=1800, workers=8)
     # TLC prints in the order its workers reach the states: sort, so that seeded sampling is reproducible
     return sorted({netkey(r): r for r in res.records}.values(), key=netkey)
 
@@ -310,15 +328,14 @@ def run(ctx):
                 "several mesh sizes, judged by the validity clauses; a case is non-trivial when the network has an "
                 "intersection; keys = (family, dim, box, #fractures, #X, #T, #L intersections, #0-d points in 3D, "
                 "touches boundary, call path)")
-    full, sampled, traces = boxes(ctx)
-    recs_full = enumerate_networks(ctx, full, "enum")
+    full, thinned = boxes(ctx)
+    allrecs = enumerate_networks(ctx, full + thinned, "enum")
+    fullmax = {(b[0], tuple(b[1])): b[2] for b in full}
+    is_full = lambda r: len(r["fracs"]) <= fullmax.get((r["dim"], tuple(r["box"])), 0)  # noqa: E731
+    recs_full = [r for r in allrecs if is_full(r)]
+    recs = recs_full + [r for r in allrecs if not is_full(r)]
     ctx.extra["enumerated_networks"] = len(recs_full)
-    recs = list(recs_full)
-    if sampled:
-        have = {netkey(r) for r in recs_full}
-        extra = [r for r in enumerate_networks(ctx, sampled, "simul", traces) if netkey(r) not in have]
-        ctx.extra["simulated_networks"] = len(extra)
-        recs += extra
+    ctx.extra["thinned_networks"] = len(recs) - len(recs_full)
     inputs = [lattice_input(r) for r in recs]
     stats = [r["stats"] for r in recs]
     # the same lattice networks through the other public entry points (seeded sample of the intersecting ones)
@@ -327,26 +344,33 @@ def run(ctx):
         for r in ctx.rng.sample(alt, min(len(alt), 40 if ctx.quick else 300)):
             inputs.append(lattice_input(r, path))
             stats.append(r["stats"])
+    # ... and on non-uniform tensor grids (validity clauses only)
+    small = [r for r in alt if max(r["box"]) <= 3 and AXMAP[r["box"][0]] * AXMAP[r["box"][1]] * max(1, AXMAP[r["box"][2]]) <= 27]
+    for r in ctx.rng.sample(small, min(len(small), 40 if ctx.quick else 400)):
+        inputs.append(tensor_input(r))
+        stats.append(r["stats"])
     cases = execute_all(inputs)
     sim = simplex_inputs(ctx)
     sim_cases = [execute(i) for i in sim]
     judge_cases(ctx, cases + sim_cases, "judge")
     for c, s in zip(cases, stats):
         i = c["in"]
-        ctx.case(key=("lattice", i["dim"], tuple(i["box"]), s["nf"], s["x"], s["t"], s["l"], s["n3"], s["bnd"], i["path"]),
+        ctx.case(key=(i["family"], i["dim"], tuple(i["box"]), s["nf"], s["x"], s["t"], s["l"], s["n3"], s["bnd"], i["path"]),
                  nontrivial=s["n2"] > 0)
     for c in sim_cases:
         i = c["in"]
         ctx.case(key=("simplex", i["name"], i["args"]["h100"]), nontrivial=len(c["out"]["intfs"]) > len(i["fracs"]))
     for c in (cases[len(cases) // 2], cases[-1], sim_cases[0]):
         ctx.sample({"in": {k: v for k, v in c["in"].items() if k != "lat"}, "observed": summary(c["out"])})
-    # every network of the exhaustively enumerated boxes was executed; the simulated boxes are a sample on top
+    # every network of the exhaustively enumerated boxes was executed; the thinned boxes are a sample on top
     ctx.exhaustive = True
     ctx.extra.update(lattice_cases=len(cases), simplex_cases=len(sim_cases),
                      meshing_exceptions=sum(1 for c in cases + sim_cases if c["out"]["err"]))
     ctx.assumptions += [
         "lattice family: fractures are axis-aligned, inside the box, not inside the domain boundary, pairwise without a "
         "common cell (overlapping / duplicated fractures make cart_grid raise and are outside the family); all clauses exact",
+        "tensor family (lattice networks on non-uniform tensor grids, integer node coordinates) and simplex family: "
+        "validity clauses only (the expected structure of FracMesh PART 1 is not compared)",
         "simplex family (validation, not exhaustive): FacesCoincideWithCell, OppositeNormals, HostVolume, CellsOnFracture "
         "and the size part of MortarSidesMatch (and the centre test inside EachCellCoupledBothSides) are float-judged on "
         "fixed-point values (2^-26): violation beyond 1e-6, pass below 3e-8, in between inconclusive; the total measure "
